@@ -36,6 +36,8 @@ pub struct ZCase {
     pub orders: Vec<u16>,
     pub gap: u8,
     pub shift: bool,
+    /// the shift that is held is the right one
+    pub right_shift: bool,
     /// a character is typed first (and zippychord left to re-enable): erasing too much shows
     pub prefix: bool,
     /// indexes into TAIL_KEYS typed afterwards
@@ -63,7 +65,7 @@ pub fn file_text(c: &ZCase) -> String {
 }
 pub fn cfg_text(c: &ZCase) -> String {
     format!(
-        "(defcfg log-layer-changes no)\n(defsrc a b c d e f x y z . , ; lsft spc)\n(deflayer l0 a b c d e f x y z . , ; lsft spc)\n(defzippy zippy.txt on-first-press-chord-deadline 500 idle-reactivate-time 500 smart-space {})\n",
+        "(defcfg log-layer-changes no)\n(defsrc a b c d e f x y z . , ; lsft rsft spc)\n(deflayer l0 a b c d e f x y z . , ; lsft rsft spc)\n(defzippy zippy.txt on-first-press-chord-deadline 300 idle-reactivate-time 400 smart-space {})\n",
         ["none", "add-space-only", "full"][c.smart_space as usize % 3]
     )
 }
@@ -72,7 +74,7 @@ impl Case for ZCase {
     fn to_json(&self) -> Value {
         json!({"config": cfg_text(self), "zippy_file": file_text(self),
             "entries": self.entries.iter().map(|e| json!([e.chords, e.out])).collect::<Vec<_>>(),
-            "smart_space": self.smart_space, "which": self.which, "orders": self.orders, "gap": self.gap, "shift": self.shift, "prefix": self.prefix, "tail": self.tail, "scenario": self.scenario})
+            "smart_space": self.smart_space, "which": self.which, "orders": self.orders, "gap": self.gap, "shift": self.shift, "right_shift": self.right_shift, "prefix": self.prefix, "tail": self.tail, "scenario": self.scenario})
     }
     fn from_json(v: &Value) -> Option<Self> {
         Some(ZCase {
@@ -91,6 +93,7 @@ impl Case for ZCase {
             orders: v["orders"].as_array()?.iter().filter_map(|x| x.as_u64().map(|y| y as u16)).collect(),
             gap: v["gap"].as_u64()? as u8,
             shift: v["shift"].as_bool()?,
+            right_shift: v["right_shift"].as_bool().unwrap_or(false),
             prefix: v["prefix"].as_bool().unwrap_or(false),
             tail: v["tail"].as_array()?.iter().filter_map(|x| x.as_u64().map(|y| y as u8)).collect(),
             scenario: v["scenario"].as_u64()? as u8,
@@ -179,11 +182,11 @@ fn judge_case(c: &ZCase) -> Verdict {
     let entry = &c.entries[wi];
     let mut v = Verdict::pass(false);
     let mut typed_desc: Vec<String> = vec![];
-    let lsft = code_of("lsft");
+    let lsft = code_of(if c.right_shift { "rsft" } else { "lsft" });
     let mut shift_restored_ok = true;
     let expected: String;
     if c.scenario % 4 == 3 {
-        // the chord's keys pressed too slowly: each more than the deadline (500 ms) after the
+        // the chord's keys pressed too slowly: each more than the deadline (300 ms, not the default) after the
         // previous one; nothing activates, the keys are typed as they are
         let keys = mask_keys(entry.chords[0]);
         let ps = perms(keys.len());
@@ -192,8 +195,8 @@ fn judge_case(c: &ZCase) -> Verdict {
         for oi in order {
             let name = CHORD_KEYS[keys[*oi]];
             sim.press(code_of(name));
-            typed_desc.push(format!("d:{name} t:510"));
-            sim.tick_n(510);
+            typed_desc.push(format!("d:{name} t:310"));
+            sim.tick_n(310);
             exp.push(name.chars().next().unwrap());
         }
         for oi in order {
@@ -236,7 +239,7 @@ fn judge_case(c: &ZCase) -> Verdict {
         if c.shift {
             sim.press(lsft);
             sim.tick_n(5);
-            typed_desc.push("d:lsft".into());
+            typed_desc.push(if c.right_shift { "d:rsft".into() } else { "d:lsft".into() });
         }
         for (j, m) in entry.chords.iter().enumerate() {
             let keys = mask_keys(*m);
@@ -264,7 +267,7 @@ fn judge_case(c: &ZCase) -> Verdict {
         }
         if c.shift {
             sim.release(lsft);
-            typed_desc.push("u:lsft".into());
+            typed_desc.push(if c.right_shift { "u:rsft".into() } else { "u:lsft".into() });
             sim.tick_n(5);
         }
         let mut exp = if c.shift { capitalize_first(&entry.out) } else { entry.out.clone() };
@@ -293,6 +296,9 @@ fn judge_case(c: &ZCase) -> Verdict {
         }
         expected = exp;
         v.classes.push(if entry.chords.len() > 1 { "follow-up-chord" } else { "single-chord" });
+        if c.shift && c.right_shift {
+            v.classes.push("right-shift-held");
+        }
         if c.shift {
             v.classes.push("shift-held");
         }
@@ -365,7 +371,7 @@ impl TypedProp for C20 {
     fn info(&self) -> PropInfo {
         PropInfo {
             level: "exploration",
-            rule: "dictionaries: 1-5 entries over chord keys a-f and `.`: a first chord of 2-3 keys, 0-2 follow-up chords of 1-2 keys, outputs of 1-6 characters (lower / upper case letters, space); a third of the entries extend the previous entry's first chord by one key, half of those also extend its output; smart-space none / add-space-only / full; deadline and idle-reactivate 500 ms. History: mostly a character typed first and zippychord left to re-enable (erasing too much shows); optionally shift held; every chord of the chosen entry's path pressed in a generated order with gaps of 1-8 ms, released, 10 ms pause; shift released; then 0-3 taps of keys that are in no chord (x y z ; ,). A separate scenario types single chord keys one after the other (never two at once), another presses a chord's keys more than the deadline apart. Oracle: the OS output is replayed into a text buffer (characters with the shift state, space, backspace); the text left must be the entry's expansion (first character capitalised when shift is held), plus the smart space where configured (removed again by punctuation in full mode), plus the characters typed afterwards; sequential typing and too-slow chords must come out as typed; a held shift must be down again after each activation; nothing is left down. Non-trivial: the dictionary has >= 2 entries or shift is held. Distinct: hash of the case.".into(),
+            rule: "dictionaries: 1-5 entries over chord keys a-f and `.`: a first chord of 2-3 keys, 0-2 follow-up chords of 1-2 keys, outputs of 1-6 characters (lower / upper case letters, space); a third of the entries extend the previous entry's first chord by one key, half of those also extend its output; smart-space none / add-space-only / full; deadline 300 ms and idle-reactivate 400 ms (both not the defaults). History: mostly a character typed first and zippychord left to re-enable (erasing too much shows); optionally the left or the right shift held; every chord of the chosen entry's path pressed in a generated order with gaps of 1-8 ms, released, 10 ms pause; shift released; then 0-3 taps of keys that are in no chord (x y z ; ,). A separate scenario types single chord keys one after the other (never two at once), another presses a chord's keys more than the deadline apart. Oracle: the OS output is replayed into a text buffer (characters with the shift state, space, backspace); the text left must be the entry's expansion (first character capitalised when shift is held), plus the smart space where configured (removed again by punctuation in full mode), plus the characters typed afterwards; sequential typing and too-slow chords must come out as typed; a held shift must be down again after each activation; nothing is left down. Non-trivial: the dictionary has >= 2 entries or shift is held. Distinct: hash of the case.".into(),
             assumptions: vec!["a chord's own line precedes the lines that follow it up (the file format rejects the other order)".into(), "with shift held the first character of the expansion is capitalised (documented behaviour)".into()],
             extra: BTreeMap::new(),
         }
@@ -378,7 +384,7 @@ impl TypedProp for C20 {
             },
             exhaustive: false,
             distinct_by_construction: false,
-            required_classes: vec!["single-chord", "follow-up-chord", "extends-a-shorter-chord", "overlapping-dictionary", "shift-held", "smart-space-added", "uppercase-output", "non-chord-typing", "slower-than-the-deadline"],
+            required_classes: vec!["single-chord", "follow-up-chord", "extends-a-shorter-chord", "overlapping-dictionary", "shift-held", "right-shift-held", "smart-space-added", "uppercase-output", "non-chord-typing", "slower-than-the-deadline"],
             hang_secs: 60,
         }
     }
@@ -400,11 +406,12 @@ impl TypedProp for C20 {
             prop::collection::vec(any::<u16>(), 3..=3),
             0u8..8,
             any::<bool>(),
+            any::<bool>(),
             prop::bool::weighted(0.7),
             prop::collection::vec(0u8..5, 0..4),
             prop_oneof![15 => Just(0u8), 3 => Just(1u8), 2 => Just(3u8)],
         )
-            .prop_map(|(raw, smart_space, which, orders, gap, shift, prefix, tail, scenario)| {
+            .prop_map(|(raw, smart_space, which, orders, gap, shift, right_shift, prefix, tail, scenario)| {
                 let mut entries: Vec<ZEntry> = vec![];
                 for (chords, outs, extend) in raw {
                     let mut chords = chords;
@@ -459,6 +466,7 @@ impl TypedProp for C20 {
                     orders,
                     gap,
                     shift,
+                    right_shift,
                     prefix,
                     tail,
                     scenario,
